@@ -75,14 +75,15 @@ type cenv struct {
 }
 
 type cell struct {
-	name       string
-	cfg        world.Cfg
-	gateNested bool // also park at hook points reached while the calling session's own IK cache lock is held
-	parts      []string
-	twoGens    bool
-	noWarm     bool // do not load every partition's key once before the schedule starts: the cache under test has seen no eviction yet
-	skOlder    bool // partitions' keys are created half a lifetime after the SK; the run starts when the SK has expired and the IKs have not
-	workers    func(e *cenv) []*worker
+	name         string
+	cfg          world.Cfg
+	gateNested   bool // also park at hook points reached while the calling session's own IK cache lock is held
+	parts        []string
+	twoGens      bool
+	revokeLatest bool // the partitions' latest IK is flagged revoked right after the producer created it (same precision unit)
+	noWarm       bool // do not load every partition's key once before the schedule starts: the cache under test has seen no eviction yet
+	skOlder      bool // partitions' keys are created half a lifetime after the SK; the run starts when the SK has expired and the IKs have not
+	workers      func(e *cenv) []*worker
 }
 
 func sharedCfg(policy string, cap int) world.Cfg {
@@ -142,6 +143,20 @@ func cells() []cell {
 				}
 			}})
 		}
+	}
+	// the latest key is flagged revoked inside the creation-date precision unit in which it was created (no later stamp
+	// can be created yet, so the reload comes back with a new object for the same key id) while another goroutine
+	// of the same cache holds the old object: default "simple" shared cache and bounded ones
+	for _, pol := range []string{"", "lru"} {
+		pol := pol
+		cfgRev := sharedCfg(pol, 8)
+		cfgRev.Revoke = time.Nanosecond // every use re-checks: the flag is noticed at once, inside the creation window
+		out = append(out, cell{name: fmt.Sprintf("shared-%s/latest-revoked-in-its-creation-window", map[string]string{"": "simple", "lru": "lru8"}[pol]), cfg: cfgRev, noWarm: true, revokeLatest: true, parts: []string{"P1"}, workers: func(e *cenv) []*worker {
+			return []*worker{
+				{label: "g1", prog: func(w *worker) { w.enc(e.sess["P1"], "P1"); w.dec(e.sess["P1"], e.recs["P1"]) }},
+				{label: "g2", prog: func(w *worker) { w.enc(e.sess["P1b"], "P1"); w.enc(e.sess["P1b"], "P1") }},
+			}
+		}})
 	}
 	// SK cache of capacity 1 with two SK generations, per-session IK caches
 	skc := world.Default(time.Hour, 30*time.Minute, time.Minute)
@@ -230,6 +245,16 @@ func runCell(c cell, d *sched.DFS) (out schedOutcome) {
 	for _, p := range c.parts {
 		e.sess[p], _ = e.f.GetSession(p)
 		e.sess[p+"b"], _ = e.f.GetSession(p)
+	}
+	if c.revokeLatest {
+		// the keys the producer has just created are flagged revoked at once (same precision unit); the factory under
+		// test is cold, so its first lookups come back with the revoked key (no later stamp can be created yet)
+		for _, p := range c.parts {
+			dr := e.recs[p].drr
+			if !e.w.Revoke(dr.Key.ParentKeyMeta.ID, dr.Key.ParentKeyMeta.Created, time.Now()) {
+				panic("revoke failed")
+			}
+		}
 	}
 	if c.skOlder {
 		// the factory under test is long-lived: it cached the SK while it was valid
@@ -362,7 +387,7 @@ func TestC08(t *testing.T) {
 	maxPer := ev.Pick(250, 9000)
 	exhaustive := true
 	onlyShape := os.Getenv("VERIF_C08_SHAPE") // debugging aid: run only the stress shapes whose name contains this
-	onlyCell := os.Getenv("VERIF_C08_CELL") // debugging aid: run only the schedule cells whose name contains this
+	onlyCell := os.Getenv("VERIF_C08_CELL")   // debugging aid: run only the schedule cells whose name contains this
 	for _, c := range cells() {
 		if onlyShape != "" && onlyCell == "" {
 			break
